@@ -11,6 +11,7 @@ import NadaVerif.Runtime.SourceRef
 import NadaVerif.Driver.AuditJson
 import NadaVerif.Spec.C15
 import NadaVerif.Driver.ProgJson
+import NadaVerif.Driver.SigJson
 
 namespace NadaVerif.Driver
 open Lean NadaVerif NadaVerif.Py NadaVerif.Generated
@@ -89,6 +90,7 @@ def handle (j : Json) : Json :=
   | .ok "audit" => handleAudit j
   | .ok "fold" => handleFold j
   | .ok "prog" => handleProg j
+  | .ok "sig" => handleSig j
   | .ok k => Json.mkObj [("error", Json.str ("unknown request " ++ k))]
   | .error e => Json.mkObj [("error", Json.str e)]
 
